@@ -309,6 +309,11 @@ impl VmCase {
     /// limit) and the public `HasStack` accessors (typed stack contents and
     /// their individual maxima).
     pub fn real(&self, t: &Tables, steps: usize) -> Result<PushState, String> {
+        self.real_with_order(t, steps, None)
+    }
+
+    /// Like `real`, declaring the inputs in the given order (a permutation of their indices).
+    pub fn real_with_order(&self, t: &Tables, steps: usize, order: Option<&[usize]>) -> Result<PushState, String> {
         let program: Vec<PushProgram> = self
             .exec
             .iter()
@@ -319,7 +324,9 @@ impl VmCase {
             .with_max_stack_size(self.max_exec)
             .with_program(program)
             .map_err(|e: StackError| format!("builder rejected program: {e}"))?;
-        for (n, l) in self.inputs.iter().enumerate() {
+        let default_order: Vec<usize> = (0..self.inputs.len()).collect();
+        for &n in order.unwrap_or(&default_order) {
+            let Some(l) = self.inputs.get(n) else { continue };
             let name = input_name(n as u8);
             b = match l {
                 Lit::Int(v) => b.with_int_input(&name, *v),
